@@ -154,6 +154,17 @@ CLAIMED = {
             'one-file-per-cell output is C19; the strategies not covered by C02 (DamID scattered layouts etc.) are not covered here '
             'either.',
             '5/C01, appendix B.6'),
+    'C03': ('Unbounded: the resolve step of BarcodeParser.expand, for one observed barcode with ANY number of (distance, barcode) '
+            'candidates, assigns iff one candidate is strictly closer than every other one (ties never assigned), to that barcode '
+            'with its cell index and distance; the lookup returns whitelist members as (index, barcode, 0), otherwise the expanded '
+            'entry, otherwise (after loading a lazily loaded alias once) nothing. Bounded stand-ins (not counted as proved): '
+            'hamming_circle yields exactly the Hamming sphere, each string once, exhaustively for lengths <= 2 (thorough: 3) over '
+            'ACGTN; the whole correction (real addBarcode, expand, lookup) for small whitelists with near-duplicates and N against '
+            'every observed string (symbolic), k = 0, 1, 2.',
+            'sorted() assumed (A4): permutation, ascending in the distance component; the collect loop of expand and hamming_circle '
+            'for realistic barcode lengths (8-16 nt) are only covered by the bounded scenarios; barcode file parsing (column order '
+            'detection) is not under contract.',
+            '5/C03, appendix B.3'),
 }
 
 NOT_YET = 'check not built yet (framework under construction; see DESIGN.md section 5)'
